@@ -1310,9 +1310,13 @@ func specPlainPanicValue(msg any) bool {
 // (VM.runFunc sets vm.fn to nil before it resumes with nextCall); a deferred
 // native function that panics, or an out error raised then, is converted in
 // that state, so neither function may assume a current function.
+// The path and position of a panic are those recorded for the instruction
+// being executed; the run loop has already advanced vm.pc past it (convertPanic
+// reads the same instruction as vm.fn.Body[vm.pc-1]).
 //@ func (*VM).newPanic
 //@   props C12
 //@   ensures result != nil && result.message == msg && result.next == nil && !result.recovered
+//@   ensures vm.fn != nil ==> result.path == vm.fn.InstructionInfo[vm.pc-1].Path && result.position == vm.fn.InstructionInfo[vm.pc-1].Position
 
 //@ func (*VM).convertPanic@unwinding
 //@   props C05 C12
